@@ -82,6 +82,18 @@ Proof. exact reload_pinned_refuted. Qed.
 Theorem C10_rebuild_params_pinned_refuted : list_eqb site_eqb build_sites pinned_rebuild_sites = false.
 Proof. exact rebuild_params_pinned_refuted. Qed.
 
+(* open finding C10-nan-external-not-saveable: a float external symbol is saveable exactly when it is not a NaN
+   (kf class 1 = the value is a NaN); witness: f64::NAN *)
+Theorem C10_float_symbol_saveable_iff_not_nan :
+  forall bits, bits < two64 ->
+    encode write_env (float_symbol bits) (SRef "ExternalValue"%string)
+    = if is_nan bits then None else Some (float_tag :: le 8 bits).
+Proof. exact float_symbol_saveable_iff_not_nan. Qed.
+
+Theorem C10_nan_external_refuted :
+  encode write_env (float_symbol quiet_nan_bits) (SRef "ExternalValue"%string) = None.
+Proof. exact nan_external_refuted. Qed.
+
 (* non-vacuity: a nested value of the translated Expression schema is encodable, so the hypotheses of
    C10_wire_roundtrip are satisfiable; the bytes are what boreal writes for `1 + filesize` *)
 Example C10_expression_example :
@@ -106,3 +118,5 @@ Print Assumptions C10_dfa_overwritten_modifiers_unused.
 Print Assumptions C10_reload_same_automata.
 Print Assumptions C10_reload_pinned_refuted.
 Print Assumptions C10_rebuild_params_pinned_refuted.
+Print Assumptions C10_float_symbol_saveable_iff_not_nan.
+Print Assumptions C10_nan_external_refuted.
